@@ -123,7 +123,7 @@ class Builder:
     shape variables (dry run for the schedule)."""
 
     def __init__(self, c: Ctx | None, shape=None, *, regions=REGIONS_QUICK, wire=False, max_array=2,
-                 canonical_uuid=True, finite_float=True, time_symbolic=False, prefix="x", wire_only_times=False):
+                 canonical_uuid=True, finite_float=True, time_symbolic=False, prefix="x", wire_only_times=False, big_array=None):
         self.c = c
         self.shape = shape or {}
         self.trace = []  # (path, n_alternatives)
@@ -135,6 +135,7 @@ class Builder:
         self.finite_float = finite_float
         self.time_symbolic = time_symbolic
         self.wire_only_times = wire_only_times
+        self.big_array = big_array  # extra length alternative for arrays of fixed-width integers (bulk fast paths)
         self.extras = None
         self.prefix = prefix
         if wire:
@@ -238,6 +239,8 @@ class Builder:
             alts = [1, 0, 2][: self.max_array + 1] if self.max_array >= 1 else [0]
             if not dataclasses.is_dataclass(inner) and self.max_array >= 2 and kt not in ("string", "bytes", "records"):
                 alts = alts + [127]  # compact length prefix boundary (one byte -> two bytes); cheap for scalar items
+                if self.big_array and kt in INT_RANGE:
+                    alts = alts + [self.big_array]
             n_alts = len(alts) + (1 if nullable else 0)
             a = self.alt(path + "#arr", n_alts)
             if a >= len(alts):
@@ -371,6 +374,23 @@ class TooLarge(Exception):
     pass
 
 
+_decl_names = {}
+
+
+def _payload_array(model, rid):
+    """the uninterpreted content array of payload `rid` if this model interprets it, else None"""
+    key = id(model)
+    names = _decl_names.get(key)
+    if names is None:
+        if len(_decl_names) > 64:
+            _decl_names.clear()
+        names = _decl_names[key] = ({d.name() for d in model.decls()}, model)  # keeps the model alive: ids stay unique
+    name = f"payload_{rid}"
+    if name in names[0]:
+        return z3.Array(name, z3.BitVecSort(W), z3.BitVecSort(8))
+    return None
+
+
 def concretise(x, model):
     """proxy-holding value -> real Python value under `model`."""
     t = type(x)
@@ -400,6 +420,13 @@ def concretise(x, model):
                     continue
                 fill = (0x61 + (rid % 26)) if it.kind == "str" else (0x41 + (rid % 26))
                 content = bytes([fill]) * n
+                arr = _payload_array(model, it.root.id)
+                if arr is not None and n <= 256 and type(it.off) is int:
+                    # the path looked at individual payload bytes (Blob.expand): honour what the model says about them
+                    got = bytes(model.eval(z3.Select(arr, z3.BitVecVal(it.off + i, W)), model_completion=True).as_long() & 0xFF for i in range(n))
+                    if it.kind != "str" or all(b < 0x80 for b in got):
+                        out.extend(got)
+                        continue
                 if content in FILL_LITERAL.values():  # declared different from that literal: use other content
                     content = bytes([fill + 1 if fill not in (0x7A, 0x5A) else fill - 1]) * n
                 out.extend(content)
